@@ -509,6 +509,7 @@ pub enum StreamEnd {
     /// dropped on purpose after k batches
     Dropped(usize),
     /// the stream yielded an error
+    #[allow(dead_code)]
     Failed { kind: ErrKind, message: String, rows_before: usize, items_after: usize, ended: bool },
 }
 
